@@ -53,7 +53,7 @@ RULE = (
     'resource group (whole group or one member); job creation, depends_on, always_run and command() calls are emitted '
     'as one random linear extension of the only constraints the DSL imposes (create before use, producer command before '
     'consumer command); random always_run flags and failing sets; in half of the pipelines the flag of a job is the outcome of 0..4 '
-    'always_run() / always_run(True) / always_run(False) calls in sequence (last call decides; sequences 1, 01, 101, 0101 for always-run jobs, '
+    'always_run() / always_run(True) / always_run(False) calls in sequence (last call decides; sequences 1, 11, 01, 101, 0101, 1011 for always-run jobs, '
     '-, 0, 10, 110, 010, 100 for the others), a quarter of the remaining DAGs get the motif failing job <- job switched on and off again '
     '<- ordinary job; in the LocalBackend histories a later sitting sets the flag again (75 %) on 1..2 jobs an earlier run() has seen, '
     'preferring jobs the first run skipped, and puts a new failing job in front of a job it switched off. A case is non-trivial when it has >= 2 jobs and >= 1 '
@@ -198,6 +198,24 @@ def FLOORS(tier):
         'plan_py_ref_python_result': 100 * k,
         'plan_py_ref_converted_result_file': 110 * k,
         'plan_py_ref_group': 20 * k,
+        # always-run flag as the outcome of a sequence of always_run() / always_run(True) / always_run(False) calls (about half of
+        # the minimum over seeds 0..4).  flag_*: single executed pipelines (phases main + python); *_flag_*: LocalBackend histories
+        'flag_calls_off': 120 * k,
+        'flag_calls_on_explicit_true': 40 * k,
+        'flag_jobs_reset': 55 * k,
+        'flag_jobs_reraised': 15 * k,
+        'flag_jobs_false_only': 7 * k,
+        'flag_reset_job_skipped': 24 * k,  # the deciding class: flag was on, is off again, a dependency failed or was skipped
+        'flag_reset_job_ran_unaffected': 27 * k,
+        'flag_reraised_job_ran_despite_bad_parent': 5 * k,
+        'flag_child_of_skipped_reset_job_skipped': 10 * k,
+        'flag_false_only_job_skipped': 2 * k,
+        'flag_call_sequences': 8,  # distinct call sequences seen (set size, not scaled)
+        'history_first_flag_reset_job_due_with_bad_parent': 10 * k,
+        'rerun_flag_changed_after_earlier_run_job_due': 8 * k,
+        'rerun_flag_reset_job_due_with_bad_parent': 8 * k,
+        'rerun_flag_switched_off_after_earlier_run_job_due_with_bad_parent': 2 * k,
+        'rerun_flag_switched_on_for_skipped_job': 3 * k,
     }
 
 
@@ -280,12 +298,34 @@ def gen_flag_calls(rng, final, rich, force_reset=False):
     if final:
         if not rich:
             return [None]
-        return rng.choice([[], [], [], [False], [on(), False], [False, on(), False]]) + [on()]
+        return rng.choice([[], [], [], [on()], [False], [on(), False], [False, on(), False], [on(), False, on()]]) + [on()]
     if force_reset:
         return rng.choice([[on(), False], [on(), False], [on(), on(), False], [False, on(), False], [on(), False, False]])
     if not rich:
         return []
     return rng.choice([[], [], [False], [on(), False], [on(), False], [on(), on(), False], [False, on(), False], [on(), False, False]])
+
+
+def side_rng(rng, salt):
+    """a second generator for the always_run call sequences, derived from the state of the case's generator WITHOUT drawing from
+    it: everything else about a generated case stays what it was before the call sequences were added (replayable all the same)"""
+    import random
+
+    return random.Random(salt + repr(rng.getstate()))
+
+
+def respread_flag_calls(frng, ordered, flag_calls):
+    """ordered = a sitting's DSL calls in call order; flag_calls = {job: [None | True | False, ...]}: take the always_run ops of
+    these jobs out and put the given sequences in - every call somewhere after the job's creation (anywhere, if the job was
+    created in an earlier sitting), the calls on one job in their order"""
+    out = [list(op) for op in ordered if not (op[0] == 'always_run' and op[1] in flag_calls)]
+    for j in sorted(flag_calls):
+        lo = next((i + 1 for i, op in enumerate(out) if op[0] == 'create' and op[1] == j), 0)
+        for a in flag_calls[j]:
+            at = frng.randint(lo, len(out))
+            out.insert(at, ['always_run', j, a])
+            lo = at + 1
+    return out
 
 
 def flag_class(calls):
@@ -306,9 +346,11 @@ def flag_calls_of(ops, into=None):
     return out
 
 
-def gen_case(rng, py=None):
+def gen_case(rng, py=None, flag_motif=True):
     """py=None: bash jobs only (and exactly the draws of the bash-only generator).  py={'p': [...], 'n_max': n,
-    'force': p}: every job is a PythonJob with a probability drawn from 'p'."""
+    'force': p}: every job is a PythonJob with a probability drawn from 'p'.  flag_motif=False: without the motif of a job
+    whose always-run flag is switched on and off again below a failing job (the always_run call sequences are generated anyway)."""
+    frng = side_rng(rng, 'flags')
     n = rng.choice([x for x in [1, 2, 2, 3, 3, 4, 4, 5, 5, 6, 6, 7, 8, 8] if py is None or x <= py.get('n_max', 8)])
     hidden = list(range(n))
     rng.shuffle(hidden)  # hidden[k] = job at position k of a valid order
@@ -364,20 +406,20 @@ def gen_case(rng, py=None):
         always[jc] = False
         shield = True
     # the always-run flag is whatever the LAST always_run(...) call on the job says: half of the pipelines make several calls per job
-    rich_flags = rng.random() < 0.5
+    rich_flags = frng.random() < 0.5
     reset = set()
-    if not cyclic and not shield and n >= 2 and rng.random() < 0.25:
+    if flag_motif and not cyclic and not shield and n >= 2 and frng.random() < 0.25:
         # motif: failing job <- job whose flag was switched on and off again (<- ordinary job, skipped through the skipped one)
-        k = 3 if n >= 3 and rng.random() < 0.6 else 2
-        picks = sorted(rng.sample(range(n), k))
+        k = 3 if n >= 3 and frng.random() < 0.6 else 2
+        picks = sorted(frng.sample(range(n), k))
         ja, jb = hidden[picks[0]], hidden[picks[1]]
-        edges.setdefault((jb, ja), rng.choice(EDGE_KINDS))
+        edges.setdefault((jb, ja), frng.choice(EDGE_KINDS))
         fails[ja], always[ja] = True, True
         always[jb] = False
         reset.add(jb)
         if k == 3:
             jc = hidden[picks[2]]
-            edges.setdefault((jc, jb), rng.choice(EDGE_KINDS))
+            edges.setdefault((jc, jb), frng.choice(EDGE_KINDS))
             always[jc] = False
     py_flags = [False] * n
     if py is not None:
@@ -400,7 +442,7 @@ def gen_case(rng, py=None):
             if py_flags[e[1]] and k in ('group', 'group_member'):
                 edges[e] = 'resource'  # a PythonJob has no resource groups: its results (and the files derived from them) are consumed
     uses_group = [any(k in ('group', 'group_member') and d == j for (_, d), k in edges.items()) for j in range(n)]
-    flag_calls = [gen_flag_calls(rng, always[j], rich_flags, force_reset=j in reset and not always[j]) for j in range(n)]
+    flag_calls = [gen_flag_calls(frng, always[j], rich_flags, force_reset=j in reset and not always[j]) for j in range(n)]
 
     # ---- operations and their only constraints; then one random linear extension ----
     ops = []  # (name, job, arg)
@@ -413,10 +455,7 @@ def gen_case(rng, py=None):
 
     create = [add(('create', j, None)) for j in range(n)]
     produce = [add(('produce', j, None), [create[j]]) for j in range(n)]
-    for j in range(n):
-        prev = create[j]
-        for a in flag_calls[j]:
-            prev = add(('always_run', j, a), [prev])  # the calls on one job keep their order; otherwise anywhere after creation
+    flag = [add(('always_run', j, None), [create[j]]) if always[j] else None for j in range(n)]
     last_cmd = {j: [produce[j]] for j in range(n)}
     py_consumed = {}
     for (j, d), kind in sorted(edges.items()):
@@ -455,6 +494,11 @@ def gen_case(rng, py=None):
         order.append(i)
         done.add(i)
         remaining.discard(i)
+    ordered = [list(ops[i]) for i in order]
+    # several always_run(...) calls on a job: its one `always_run()` (if any) is replaced by the generated sequence
+    special = {j: c for j, c in enumerate(flag_calls) if c != ([None] if always[j] else [])}
+    if special:
+        ordered = respread_flag_calls(frng, ordered, special)
     return {
         'n': n,
         'edges': [[j, d, k] for (j, d), k in sorted(edges.items())],
@@ -465,7 +509,7 @@ def gen_case(rng, py=None):
         'fails': fails,
         'uses_group': uses_group,
         'py': py_flags,
-        'ops': [list(ops[i]) for i in order],
+        'ops': ordered,
         'style': style,
     }
 
@@ -1003,8 +1047,9 @@ def _descendants(deps, n):
 def gen_history(rng, plan, py=None):
     """a first sitting (an acyclic gen_case pipeline) followed by 1..2 edit sittings, each closed by run();
     py (recording backend only): bash and python jobs mixed, see gen_case"""
+    frng = side_rng(rng, 'history-flags')  # see side_rng: the always_run call sequences draw from a generator of their own
     while True:
-        base = gen_case(rng, py)
+        base = gen_case(rng, py, flag_motif=False)
         if not base['cyclic'] and base['n'] >= 2:
             break
     n = base['n']
@@ -1034,11 +1079,11 @@ def gen_history(rng, plan, py=None):
         if base['always'][j] and not always[j]:
             # the dependent was an always-run job of the generated pipeline: either it is never marked, or (the way a script that
             # changes its mind does it) the flag is switched off again by a later always_run(False)
-            if rng.random() < 0.5:
+            if frng.random() < 0.5:
                 first_ops = [op for op in first_ops if not (op[0] == 'always_run' and op[1] == j)]
             else:
                 at = max(i for i, op in enumerate(first_ops) if op[0] == 'always_run' and op[1] == j)
-                first_ops.insert(rng.randint(at + 1, len(first_ops)), ['always_run', j, False])
+                first_ops.insert(frng.randint(at + 1, len(first_ops)), ['always_run', j, False])
     p_dry = 0.4 if plan else 0.25
     stages = [{
         'new_jobs': list(range(n)), 'edges_added': [list(e) for e in base['edges']], 'ops': first_ops,
@@ -1096,22 +1141,22 @@ def gen_history(rng, plan, py=None):
         # (real backend) the flag of jobs that an earlier run() has already seen is changed in this sitting - preferably of jobs
         # that the first run skipped: they are still to be run, so the flag they have NOW decides what this run owes them
         toggles = {}
-        if not plan and rng.random() < 0.75:
-            pool = sorted(j for j in leftover if j < old_n) if rng.random() < 0.8 else []
+        if not plan and frng.random() < 0.75:
+            pool = sorted(j for j in leftover if j < old_n) if frng.random() < 0.8 else []
             pool = pool or list(range(old_n))
             rank = {j: k for k, j in enumerate(hidden)}
-            for j in rng.sample(pool, min(len(pool), rng.choice([1, 2, 2]))):
-                final = rng.random() < 0.4
-                calls = gen_flag_calls(rng, final, True, force_reset=not final and rng.random() < 0.75)
+            for j in frng.sample(pool, min(len(pool), frng.choice([1, 2, 2]))):
+                final = frng.random() < 0.4
+                calls = gen_flag_calls(frng, final, True, force_reset=not final and frng.random() < 0.75)
                 if not calls:
                     calls = [None] if final else [False]
                 toggles[j] = calls
                 always[j] = final
-                if not final and mode == 'dag' and rng.random() < 0.75:
+                if not final and mode == 'dag' and frng.random() < 0.75:
                     # ... and a new job that fails in this run is put in front of it (one of this sitting's, or one more)
                     earlier_new = sorted(x for x in new if rank[x] < rank[j] and (j, x) not in edges and not (motif and x == b2))
                     if earlier_new:
-                        x = rng.choice(earlier_new)
+                        x = frng.choice(earlier_new)
                     else:
                         x = n
                         n += 1
@@ -1122,7 +1167,7 @@ def gen_history(rng, plan, py=None):
                         uses_group.append(False)
                         py_flags.append(False)
                         rank = {jj: k for k, jj in enumerate(hidden)}
-                    added.setdefault((j, x), kind_for(x))
+                    added.setdefault((j, x), frng.choice(HIST_EDGE_KINDS))
                     fails[x], always[x] = True, True
         if mode == 'cycle':
             deps = {j: set() for j in range(n)}
@@ -1189,15 +1234,9 @@ def gen_history(rng, plan, py=None):
 
         create = {x: add(('create', x, None)) for x in new}
         produce = {x: add(('produce', x, None), [create[x]]) for x in new}
-        rich_flags = rng.random() < 0.5
         for x in new:
-            prev = create[x]
-            for a in gen_flag_calls(rng, always[x], rich_flags):
-                prev = add(('always_run', x, a), [prev])
-        for j in sorted(toggles):
-            prev = None
-            for a in toggles[j]:
-                prev = add(('always_run', j, a), [prev])
+            if always[x]:
+                add(('always_run', x, None), [create[x]])
         last_cmd = {x: [produce[x]] for x in new}
         py_consumed = {}
         for (j, d), kind in sorted(added.items()):
@@ -1225,9 +1264,16 @@ def gen_history(rng, plan, py=None):
             order.append(i)
             done.add(i)
             remaining.discard(i)
+        ordered = [list(ops[i]) for i in order]
+        # several always_run(...) calls on this sitting's jobs (half of the sittings) and the calls on the earlier jobs
+        rich_flags = frng.random() < 0.5
+        special = {x: c for x in new for c in [gen_flag_calls(frng, always[x], rich_flags)] if c != ([None] if always[x] else [])}
+        special.update(toggles)
+        if special:
+            ordered = respread_flag_calls(frng, ordered, special)
         stages.append({
             'new_jobs': new, 'edges_added': [[j, d, k] for (j, d), k in sorted(added.items())],
-            'ops': [list(ops[i]) for i in order], 'dry': rng.random() < p_dry, 'mode': mode, 'cycle_shape': shape,
+            'ops': ordered, 'dry': rng.random() < p_dry, 'mode': mode, 'cycle_shape': shape,
             'always': list(always), 'flags_changed': sorted(toggles),
         })
     return {'backend': 'plan' if plan else 'local', 'n': n, 'always': always, 'fails': fails, 'uses_group': uses_group,
@@ -1758,3 +1804,19 @@ def _run(ctx, py_err):
 # the jobs whose dependency failed in an EARLIER run (the failed job is `_submitted`, so nothing cancels them, and the
 # earlier run's scratch directory with the producer's files is gone); LocalBackend marks every job `_submitted` on a
 # dry run, so `run(dry_run=True)` followed by `run()` executes nothing.
+#
+# Always-run flag as the outcome of a call sequence (added after seeded change C17-agent8, invisible as long as the only call ever made
+# is one `always_run()` on the always-run jobs; scratch worktree, quick, seed 0).  The call sequences, their positions, the motif
+# "failing job <- job switched on and off again <- ordinary job" and the later-sitting flag changes of the LocalBackend histories draw
+# from a generator of their own (side_rng), so every other choice of a generated case is what it was before.
+#  S4 seed    job.py    Job.always_run(False) no longer clears the flag (assignment inside `if always_run:`)
+#                                                                          CAUGHT skip/job-reset-to-not-always-run-ran,
+#             skip/rerun-job-reset-to-not-always-run-ran, skip/child-of-skipped-job-ran
+#  F1 own     job.py    every always_run() / always_run(True) toggles the flag (`not self._always_run if always_run else False`; needs
+#             two switching-on calls in a row)                             CAUGHT skip/always-run-job-skipped,
+#             skip/always-run-job-set-again-after-reset-skipped, skip/child-of-successful-always-run-job-skipped,
+#             skip/rerun-job-made-always-run-after-earlier-run-skipped
+#  F2 own     job.py    the first always_run(...) call on a job wins, later calls are ignored
+#                                                                          CAUGHT skip/always-run-job-set-again-after-reset-skipped,
+#             skip/always-run-job-skipped, skip/child-of-successful-always-run-job-skipped, skip/rerun-always-run-job-set-again-after-reset-skipped
+#  S1, S2, S3 (C17-agent2, -agent4, -agent6) still CAUGHT.  Unchanged tree: silent for VERIF_SEED 0..4 quick and 0..2 thorough.
